@@ -12,6 +12,7 @@ import GV.Proofs.Utf16
 import GV.Proofs.JsConv
 import GV.Proofs.JsRoundtrip
 import GV.Proofs.CbGuard
+import GV.Proofs.JsTagKey
 
 namespace GV.Props.C11
 open GV.JsConv GV.Utf16 GV.Utf8 GV.Spec.JsTable GV.Spec.Utf8
@@ -166,6 +167,35 @@ theorem wrapper_stable (c : WrapCache) (h : List Nat) (f w1 w2 : Nat)
 theorem wrapper_injective (h : List Nat) (f1 f2 w : Nat)
     (h1 : (f1, w) ∈ runHistory WrapCache.empty h) (h2 : (f2, w) ∈ runHistory WrapCache.empty h) : f1 = f2 :=
   GV.Proofs.JsConv.wrapper_injective h f1 f2 w h1 h2
+
+/-! ## js-tagged struct fields: the property accessor emitted for a `js:"…"` tag -/
+
+/-- **tag_key_spec** — for every tag that is valid UTF-8 (runes `rs`), whatever `unicode.IsLetter/IsNumber/IsPrint` say
+    (provided non-printable runes are in the BMP: `\u%04X` prints more than four digits beyond it), the accessor emitted by
+    `formatJSStructTagVal` — dot notation or bracket notation with a `template.JSEscapeString` literal — denotes the
+    property whose name is the UTF-16 transcoding of the tag, i.e. exactly the name `$externalize(tag, $String)` yields
+    for `obj.Get(tag)`, and what JavaScript code sees. -/
+theorem tag_key_spec (T : GV.JsTagKey.Tables) (rs : List Nat) (hs : ∀ r ∈ rs, isScalar (r : Int) = true)
+    (hp : ∀ r ∈ rs, r > 0xFFFF → T.isPrint r = true) :
+    GV.JsTagKey.keyName (GV.JsTagKey.tagKey T rs) = some (externalizeString ((rs.map encodeScalar).flatten)) := by
+  rw [GV.Proofs.Utf16.externalize_valid rs hs]
+  exact GV.Proofs.JsTagKey.tagKey_name T rs
+    (fun r hr => ((GV.Proofs.Utf16.isScalar_iff r).mp (hs r hr)).1) hp
+
+/-- C14's `encodeString` (the literal for a GO string: one code unit per BYTE) is the WRONG encoder for a property name:
+    the literal it emits denotes the tag's bytes (C14 `literal_roundtrip`), not its UTF-16 form. -/
+theorem tag_key_byte_escaped_denotes_bytes (bytes : List Nat) (hb : ∀ b ∈ bytes, b < 256) :
+    GV.StrLit.jsStringValue (GV.StrLit.encodeString bytes) = some bytes :=
+  GV.Props.C14.literal_roundtrip bytes hb
+
+/-- the variant that builds the bracket key with `encodeString` is refuted by `js:"ö-"`: the accessor denotes the
+    mojibake name C3 B6 2D instead of F6 2D. -/
+theorem tag_key_byte_escaped_counterexample :
+    let T : GV.JsTagKey.Tables := ⟨fun r => r == 0xF6, fun _ => false, fun _ => true⟩
+    GV.JsTagKey.keyName (GV.JsTagKey.tagKeyBytes T [0xF6, 0x2D] [0xC3, 0xB6, 0x2D]) = some [0xC3, 0xB6, 0x2D] ∧
+    GV.JsTagKey.keyName (GV.JsTagKey.tagKey T [0xF6, 0x2D]) = some [0xF6, 0x2D] ∧
+    externalizeString [0xC3, 0xB6, 0x2D] = [0xF6, 0x2D] := by
+  decide
 
 /-! ## the callback guard -/
 open GV.CbGuard
